@@ -2483,6 +2483,7 @@ impl<'p> Evaluator<'_, 'p> {
             let sub_array = sub_array.view();
             if let Some(sub_item0) = sub_array.first() {
                 let sub_item0 = sub_item0.view();
+                self.push_trace_item(TraceItem::ArrayItem { span: None, index });
                 self.state_stack.push(State::StdFlattenDeepArrayItem {
                     array: sub_array,
                     index: 0,
